@@ -58,6 +58,7 @@ def static_ops():
         for pair in itertools.product(METHODS, repeat=2):
             ops.append(('batch', e, pair))
         ops.append(('batch', e, ('m0', 'zz')))
+        ops.append(('batch', e, ('m%d' % e,)))          # a batch of exactly one element is still a batch (answered with an array)
     ops.append(('call0', 0, 'm0'))                      # request id 0
     ops.append(('notify', 0, 'm0'))
     return ops
@@ -481,6 +482,56 @@ def bfs(ctx, passthrough):
     return total_states, capped
 
 
+BACKEND_URLS = ['http://test.com/api', 'http://Billing.Internal/rpc', 'http://gateway:80/api', 'https://gw:443/api', 'http://h/a b', 'http://h/%7Euser/rpc',
+                'http://h/x/../rpc', 'http://h/rpc/', 'http://h/rpc?tenant=A&x=1', 'http://user@h/rpc', 'HTTP://H/RPC', 'http://h/\u00e9']
+
+
+def run_backends(ctx):
+    """the mocker patching the REAL client backends: a patch added for an endpoint url answers the client that was built with exactly
+    that url (whatever its spelling), records the call under that url, and every other url is refused"""
+    import asyncio
+    from mc.harness.backends import FakeAiohttpSession
+    rec = ctx.rec
+    targets = [('requests', 'pjrpc.client.backend.requests.Client', False), ('httpx', 'pjrpc.client.backend.httpx.Client', False),
+               ('httpx-async', 'pjrpc.client.backend.httpx.AsyncClient', True), ('aiohttp', 'pjrpc.client.backend.aiohttp.Client', True)]
+    for name, path, is_async in targets:
+        mod, cls_name = path.rsplit('.', 1)
+        cls = getattr(__import__(mod, fromlist=[cls_name]), cls_name)
+        for url in BACKEND_URLS:
+            for other in ('http://elsewhere/api',):
+                with PjRpcMocker(target=path + '._request') as mocker:
+                    mocker.add(url, 'm', result=['r', url])
+                    mocker.add(url, 'n', result='other method')
+                    kw = dict(session=FakeAiohttpSession(None)) if name == 'aiohttp' else {}
+                    outs = []
+                    for u in (url, other):
+                        try:
+                            client = cls(u, **kw)
+                            r = client.call('m', 1)
+                            if is_async:
+                                loop = VLoop()
+                                try:
+                                    r = loop.run(r)
+                                finally:
+                                    loop.close()
+                            outs.append(('ok', r))
+                        except ConnectionRefusedError:
+                            outs.append(('refused',))
+                        except Exception as e:   # noqa
+                            outs.append(('exc', type(e).__name__, str(e)[:100]))
+                    rec.transitions += 2
+                    rec.traces += 1
+                    c = dict(part='backends', backend=name, url=url)
+                    calls = {ep: {k: len(stub.call_args_list) for k, stub in d.items()} for ep, d in mocker.calls.items()}
+                    if outs[0] != ('ok', ['r', url]):
+                        rec.violation('C20:backends:a patch added for the url the client was built with does not answer it', c, expected=('ok', ['r', url]), observed=outs[0])
+                    elif outs[1] != ('refused',):
+                        rec.violation('C20:backends:an endpoint without patches was not refused', c, expected=('refused',), observed=outs[1])
+                    elif calls != {url: {('2.0', 'm'): 1}}:
+                        rec.violation('C20:backends:recorded calls differ from the calls made', c, expected={url: {('2.0', 'm'): 1}}, observed=repr(calls))
+                    rec.counters['backend cases'] += 1
+
+
 def run(ctx):
     ctx.rule = ('E2: level-synchronous BFS over histories of <= %d operations (quick: 3 with passthrough on) over {add(endpoint, method, result|error|callback, once on/off) '
                 '(16 variants), replace at each valid index, remove(endpoint, method), remove(endpoint), single call positional / named, '
@@ -495,6 +546,7 @@ def run(ctx):
     for passthrough in (False, True):
         n, c = bfs(ctx, passthrough)
         capped = capped or c
+    run_backends(ctx)
     ctx.rec.nontrivial_n = ctx.rec.traces
     ctx.rec.evaluations = ctx.rec.traces
     if capped:
